@@ -217,6 +217,18 @@ def run():
         rep.add(o)
     from obligations import C11_log
     C11_log.add(rep, prog)
+    # "for arbitrary file names": the script's paths are printed with Path::quote - the quote/split/bash obligations of C17 are part
+    # of this claim (C17's run is merged into this report, as in C10)
+    try:
+        from obligations import C17
+        rep17 = C17.run()
+        for o in rep17.obls:
+            o.name = "paths in the script: " + o.name
+            rep.obls.append(o)
+    except Inconclusive as ex:
+        o = Obligation("paths in the script: quote/split", "E2 mirsym/z3")
+        o.verdict, o.detail = "inconclusive", str(ex)
+        rep.add(o)
     return rep
 
 
